@@ -79,6 +79,13 @@ class BuiltinsMixin:
                 return o.name
             if name == "__members__" and o.is_enum:
                 return DictV(list(o.members.items()))
+            if name == "_member_names_" and o.is_enum:
+                seen, out = set(), []
+                for n_, m_ in o.members.items():
+                    if id(m_) not in seen:        # aliases are not listed
+                        seen.add(id(m_))
+                        out.append(n_)
+                return ListV(out)
             if name == "__mro__":
                 return tuple(o.mro)
             self.raise_py("AttributeError", f"type object {o.name!r} has no attribute {name!r}")
@@ -464,6 +471,8 @@ class BuiltinsMixin:
     def len_(self, v):
         if isinstance(v, (tuple, str, bytes)):
             return len(v)
+        if type(v).__name__ == "SStr":
+            raise Unsupported("len() of a structured string")
         if isinstance(v, (ListV, SetV)):
             return len(v.items)
         if isinstance(v, DictV):
@@ -565,6 +574,8 @@ class BuiltinsMixin:
             if o.tag == "deque":
                 items = o.fields["items"]
                 return items[self.norm_index(i, len(items))]
+            if o.tag == "rematch":
+                return o.fields["groups"][i]
             f, _ = o.cls.lookup("__getitem__")
             if f is not None:
                 return self.call(self.bind(f, o), [i], {})
@@ -683,6 +694,9 @@ class BuiltinsMixin:
     def str_concat(self, parts):
         if all(isinstance(p, str) for p in parts):
             return "".join(parts)
+        from . import textmodel
+        if any(isinstance(p, textmodel.SStr) for p in parts):
+            return textmodel.concat([p if isinstance(p, (str, textmodel.SStr)) else textmodel.SStr([textmodel.Tok("str", p)]) for p in parts])
         zs = [to_z3(p) for p in parts if not (isinstance(p, str) and p == "")]
         if len(zs) == 1:
             return SV(zs[0], "str")
@@ -691,6 +705,10 @@ class BuiltinsMixin:
     def format_value(self, v, conv, spec):
         if spec is not None and not isinstance(spec, str):
             raise Unsupported("symbolic format spec")
+        from . import textmodel
+        tm = textmodel.make(self, v, conv, spec)
+        if tm is not None:
+            return tm
         if _is_conc(v):
             x = v.value if isinstance(v, EnumVal) and v.cls.is_intenum and spec else v
             if isinstance(v, EnumVal) and not spec:
